@@ -350,9 +350,12 @@ func (k *Keeper) campaign() error {
 		}
 		if ret[0].UpdatedAt.Before(time.Now().Add(-1 * k.opt.UnhealthyTime)) {
 			ret, err := k.mongoDb.Collection(k.leaderClsName).UpdateOne(ctx,
+				// compare-and-set on the very record that was read: a renewal (or another
+				// take-over) that landed in between must make this update miss
 				bson.M{
 					"_id":       LeaderKey,
 					"workerKey": ret[0].WorkerKey,
+					"updatedAt": ret[0].UpdatedAt,
 				},
 				bson.M{
 					"$set": bson.M{
